@@ -741,6 +741,15 @@ func (i *instance) skipToRound(round uint64, chain *ECChain, justification *Just
 	metrics.currentRound.Record(context.TODO(), int64(i.current.Round))
 	metrics.skipCounter.Add(context.TODO(), 1, metric.WithAttributes(attrSkipToRound))
 
+	if i.current.Phase == QUALITY_PHASE {
+		// Skipping ahead before QUALITY has ended: settle the proposal the way the end of
+		// QUALITY would have, i.e. on the longest prefix of the input backed by the QUALITY
+		// votes received so far (the base chain if none). Otherwise the untrimmed input
+		// stays as a proposal that is not a candidate, and CONVERGE may find no value.
+		i.proposal = i.quality.FindStrongQuorumValueForLongestPrefixOf(i.input)
+		i.addCandidatePrefixes(i.proposal)
+		i.value = i.proposal
+	}
 	if justification.Vote.Phase == PREPARE_PHASE {
 		i.log("⚠️ swaying from %s to %s by skip to round %d", i.proposal, chain, i.current.Round)
 		i.addCandidate(chain)
